@@ -179,9 +179,12 @@ class SimLoop(asyncio.BaseEventLoop):
             if until is None:
                 keep.append(h)
                 continue
-            # original order is kept among the postponed handles of one owner
+            # everything that fell due during the stall is due at its end, in one loop iteration like after a real
+            # block, and in the original order (the handles leave the heap in that order; fresh sequence numbers keep it)
             self._postpone_seq += 1
-            h._when = until + self._postpone_seq * 1e-9
+            h._when = until
+            self._timer_seq += 1
+            h._seq = self._timer_seq
             self.postponed += 1
             if self.on_postpone is not None:
                 self.on_postpone()
